@@ -186,7 +186,8 @@ func runC36(c *eng.Ctx) {
 				case "old":
 					return eng.MentionsField(a, "EventNotification.OldEntry") || (eng.MentionsField(a, "SubscribeMetadataResponse.Directory") && eng.MentionsCall(a, "util.FullPath).Child"))
 				case "new":
-					return eng.MentionsField(a, "EventNotification.NewParentPath") && eng.MentionsCall(a, "util.FullPath).Child")
+					// the new key, or the new parent it is built from
+					return eng.MentionsField(a, "EventNotification.NewParentPath")
 				case "dir":
 					return eng.MentionsField(a, "SubscribeMetadataResponse.Directory") && !eng.MentionsCall(a, "util.FullPath).Child")
 				}
